@@ -7,6 +7,7 @@
   the argv part), `vfork()` itself and `execvpe`.  Assumed: the semantics of the translated subset, `::close` / `dup2` on descriptor tables.
 -/
 import Nstd.Generated.ArgsFds
+import Nstd.Args.PropsProc
 
 set_option linter.unusedSimpArgs false
 
@@ -30,7 +31,7 @@ theorem translated_open_branches_eq_model (E : Env) (s : GenF.FS) :
         (closeBothIf (s.stdoutFds0, s.stdoutFds1) s.tbl)) ∧
       s'.errno = s.errno ∧ s'.pid = s.pid ∧ s'.fdStdOutRead = s.fdStdOutRead ∧ s'.fdStdErrRead = s.fdStdErrRead ∧
       s'.fdStdInWrite = s.fdStdInWrite) := by
-  obtain ⟨fo, fe, fi, pid, r, o0, o1, e0, e1, i0, i1, en, t, er⟩ := s
+  obtain ⟨fo, fe, fi, pid, r, o0, o1, e0, e1, i0, i1, en, t, st, ca, fk, fr, er⟩ := s
   refine ⟨?_, ?_, ?_⟩
   · by_cases h1 : o1 = 0 <;> by_cases h2 : e1 = 0 <;> by_cases h3 : i0 = 0 <;>
       simp [GenF.openParent, GenF.openParent_b3, GenF.openParent_b2, GenF.openParent_b1, closeIf, fdClose, h1, h2, h3]
@@ -68,5 +69,47 @@ theorem translated_open_eq_openFds (E : Env) (streams : Nat) (f : Fresh) (t : Fd
   · rw [hp5, h6]; rfl
   · rw [hc2, ht, h1, h2, h3, h4, h5, h6]; rfl
   · rw [he2, ht, ho, he, hi]; rfl
+
+/-- the three statements that create the pipes (`if (streams & ..) { if (pipe(..) != 0) goto error; }`), started with the arrays zeroed
+    and no `pipe()` call made, for every mask, every table, every choice of descriptors by the kernel and whichever call fails
+    (`failK`, 0 = none): when `Kernel.pipesUntilFailure` says all requested pipes exist, the translated code falls through with
+    exactly that table and those arrays; when it says the `k`-th call fails, the translated code has jumped to `error:` and
+    returns false with the table `Kernel.errorPath` of the state reached -- `open_pipe_failure_restores_table` speaks about the
+    current statements -/
+theorem translated_open_pipes_eq_model (E : Env) (s : GenF.FS) (hc : s.calls = 0)
+    (ho : s.stdoutFds0 = 0 ∧ s.stdoutFds1 = 0) (he : s.stderrFds0 = 0 ∧ s.stderrFds1 = 0) (hi : s.stdinFds0 = 0 ∧ s.stdinFds1 = 0) :
+    match pipesUntilFailure s.streams s.failK s.fresh s.tbl with
+    | .ok ps => ∃ s', GenF.openPipes E s = some (.next s') ∧ s'.tbl = ps.t ∧ (s'.stdoutFds0, s'.stdoutFds1) = ps.o ∧
+        (s'.stderrFds0, s'.stderrFds1) = ps.e ∧ (s'.stdinFds0, s'.stdinFds1) = ps.i ∧ s'.calls = ps.calls
+    | .error ps => ∃ s', GenF.openPipes E s = some (.ret false s') ∧ s'.tbl = errorPath ps ∧ s'.errno = s.errno := by
+  obtain ⟨fo, fe, fi, pid, r, o0, o1, e0, e1, i0, i1, en, t, st, ca, fk, fr, er⟩ := s
+  simp only at hc ho he hi
+  obtain ⟨h1, h2⟩ := ho
+  obtain ⟨h3, h4⟩ := he
+  obtain ⟨h5, h6⟩ := hi
+  subst hc h1 h2 h3 h4 h5 h6
+  have k1 : (st &&& 1 = 0) ↔ Kernel.bit st 1 = false := by
+    have := and_pow_zero st 0
+    simp only [Nat.pow_zero, Nat.div_one] at this
+    unfold Kernel.bit; rw [Nat.div_one]; exact this
+  have k2 : (st &&& 2 = 0) ↔ Kernel.bit st 2 = false := by
+    have := and_pow_zero st 1
+    simp only [Nat.pow_one] at this
+    unfold Kernel.bit; exact this
+  have k4 : (st &&& 4 = 0) ↔ Kernel.bit st 4 = false := by
+    have := and_pow_zero st 2
+    simp only [show (2 : Nat) ^ 2 = 4 from rfl] at this
+    unfold Kernel.bit; exact this
+  simp only [GenF.openPipes, GenF.openPipes_b2, GenF.openPipes_b1, pipesUntilFailure, tryPipe, PipeSt.init, k1, k2, k4]
+  have c1 : (1 = fk) = (fk = 1) := propext ⟨Eq.symm, Eq.symm⟩
+  have c2 : (2 = fk) = (fk = 2) := propext ⟨Eq.symm, Eq.symm⟩
+  have c3 : (3 = fk) = (fk = 3) := propext ⟨Eq.symm, Eq.symm⟩
+  generalize Kernel.bit st 1 = B1
+  generalize Kernel.bit st 2 = B2
+  generalize Kernel.bit st 4 = B4
+  by_cases q1 : fk = 1 <;> by_cases q2 : fk = 2 <;> by_cases q3 : fk = 3 <;> cases B1 <;> cases B2 <;> cases B4 <;>
+  by_cases z1 : fr.outR = 0 <;> by_cases z2 : fr.errR = 0 <;> by_cases z3 : fr.inR = 0 <;>
+    simp [c1, c2, c3, q1, q2, q3, z1, z2, z3, bind, Except.bind, tryPipe, errorPath, closeBothIf, GenF.openError, GenF.openError_b3, GenF.openError_b2, GenF.openError_b1,
+      fdClose] <;> (try omega)
 
 end Nstd.Args.Tie
